@@ -155,6 +155,14 @@ def gen_inputs(rng, tier):
                 inputs.append("%s(1.5, -%s)" % (f, m))
             inputs.append("%s(%s, 2)" % (f, m))
         inputs += ["%s()" % f, "%s(1, 2, 3)" % f, "%s(,)" % f, "%s(1 m, 1 s)" % f, "%s(%s(1e400))" % (f, f), "%s(1) ^ 0" % f, "%s(1 / 0)" % f]
+    # a call that fails, inside every argument position of every other call, two and three levels deep: the error of the inner call
+    # travels through the outer ones (its span, its argument index) and must arrive as a located error
+    bad_calls = ["round(2.5, 1e10)", "round(1 m, -1e10)", "round(1, 99999999999)", "round(0.5, 3000000000)", "round(1, 2, 3)", "nosuch(1)", "round(1 m, 1 s)",
+                 "floor(1 / 0)", "floor()", "ceil(1, 2)", "sin(1e400)", "round(2, 0.5)", "round(1, 1e-400)"]
+    for f in funcs:
+        for b in bad_calls:
+            inputs += ["%s(%s)" % (f, b), "%s(1, %s)" % (f, b), "%s(%s, 2)" % (f, b), "%s(%s, %s)" % (f, b, b), "%s(1, 2, %s)" % (f, b),
+                       "%s(%s(%s))" % (f, f, b), "1 + %s(ceil(%s)) to m" % (f, b), "%s(floor(1.5), %s)" % (f, b), "(%s(%s)) (2)" % (f, b)]
     # the tool's own output alphabet typed back in: superscript digits and minus, the product dot, the cut-off mark, micro signs,
     # degree and prime signs -- every one of them at the end of, inside and in front of a unit word, in every position a unit can
     # stand (after a number, after `to`, in a function argument, below a bar); characters of one, two and three bytes
@@ -221,7 +229,7 @@ def run(rng, tier, model_ok):
         "evaluations": 2 * len(inputs) + len(sample), "distinct_nontrivial": len(set(inputs)),
         "rule": "token soups of up to 40 tokens (numbers with exponents up to 3 digits, powers up to 2 digits, unit words, keywords, operators, "
                 "braces, Unicode blanks and stray characters), well-formed random queries and single-edit mutations of them, products / quotients / "
-                "powers / sums of quantities with derived units, boundary operands under every operator, every function x arguments at the edges of the float and machine-integer ranges, the characters of the tool's own output (superscripts, product dot, cut-off mark) in and around unit words, arbitrary Unicode strings; each in the debug-assertion and in the release build, "
+                "powers / sums of quantities with derived units, boundary operands under every operator, every function x arguments at the edges of the float and machine-integer ranges, failing calls nested in every argument position of every call, the characters of the tool's own output (superscripts, product dot, cut-off mark) in and around unit words, arbitrary Unicode strings; each in the debug-assertion and in the release build, "
                 "a sample through the `any` binary; non-trivial = distinct inputs",
         "samples": [inputs[i] for i in (3, len(inputs) // 3, len(inputs) // 2, len(inputs) - 2)],
         "mismatches": mismatches, "failures": failures,
